@@ -3,7 +3,7 @@ CONSTANTS
   MaxSegs = 2
   WordLens = {2, 9, 16, 47, 80}
   Widths = {1, 2, 3, 4}
-  Seps = {"sp", "nl", "dot", "dotfar", "none"}
+  Seps = {"sp", "nl", "dot", "dotfar", "dotcap", "abbr", "none"}
   UnitLimits <- ULs
   Space <- ProfSpace
 CONSTRAINT EmitCase
